@@ -1,7 +1,7 @@
 SPECIFICATION Spec
 CONSTANTS
   Roles = {"controlling", "controlled"}
-  Socks = {"udp"}
+  Socks = {"udp", "mux"}
   Lites = {FALSE, TRUE}
   UserAlpha = {"ok", "missing", "wrong"}
   MiAlpha = {"ok", "missing", "wrongKey", "garbled"}
